@@ -22,7 +22,7 @@ BUDGET = {'quick': 96, 'thorough': 4000}
 CAP_S = {'quick': 220, 'thorough': 3000}
 RULE = ('two case families. history: a scratch package (4 modules: annotated functions, a class, a pre-decorated function, a class replaced by a factory decorator, a violating '
         'module-level annotated assignment) + a sequence of 2-5 interpreter runs, each with a hook setting from {off, default, '
-        'claw_is_pep526=False, FIRST decorator placement (both / types only / functions only), strategy O0 / On, is_pep484_tower, violation_type=UserWarning, violation_type=ValueError} and optional source edits '
+        'claw_is_pep526=False, FIRST decorator placement (both / types only / functions only), strategy O0 / On, is_pep484_tower, violation_type=UserWarning, violation_type=ValueError, and two-registration settings mix:A:B = configuration A for the package and B for one of its modules} and optional source edits '
         'between runs (comment appended / annotation changed, mtime advanced by 2 s). Oracle: fingerprint (import outcomes and probe-call '
         'verdicts) of the last run == fingerprint of the same setting after deleting every __pycache__; file invariant after every run. '
         'threads: hook setting x 2-3 threads each importing 1-2 modules (hooked and unhooked mixed) x schedule (list of run lengths, the first a fraction of the first thread\'s own length) in '
